@@ -3804,8 +3804,10 @@ def Gillespie_Arbitrary(G, spontaneous_transition_graph,
   return Gillespie_simple_contagion(G, spontaneous_transition_graph, 
                                     nbr_induced_transition_graph, IC, 
                                     return_statuses, tmin = tmin,  tmax=tmax, 
+                                    spont_kwargs = spont_kwargs, 
+                                    nbr_kwargs = nbr_kwargs, 
                                     return_full_data = return_full_data, 
-                                    **sim_kwargs)
+                                    sim_kwargs = sim_kwargs)
   
 def Gillespie_simple_contagion(G, spontaneous_transition_graph, 
   nbr_induced_transition_graph, IC, return_statuses, tmin = 0,  tmax=100, 
